@@ -36,7 +36,7 @@ TABLE = {
         "theorems": ["AcqVerif.C07.stop_returns_armed_and_clean", "AcqVerif.C07.stop_has_joined", "AcqVerif.C07.start_over_finished_threads",
                      "AcqVerif.C07.idle_runtime_is_clean", "AcqVerif.C07.refusal_wakes_a_sleeping_source", "AcqVerif.C07.stop_never_waits_for_an_orphaned_sleeper",
                      "AcqVerif.Runtime.TInvAll.micro", "AcqVerif.Runtime.DWake.micro", "AcqVerif.Runtime.DStop.micro", "AcqVerif.Runtime.Reach.micro"],
-        "classes": ["abort", "abortmon", "holdmon", "trig", "avgabort", "stofault", "restart", "reconf", "twofail", "trigfault"],
+        "classes": ["abort", "abortmon", "holdmon", "trig", "avgabort", "stofault", "restart", "reconf", "twofail", "trigfault", "avgf32"],
         "kinds": ("still-running-after", "state-after", "never-returns", "stored-", "camera-delivered", "CRASH", "monitor-frame-not-from"),
         "what": "abort/stop from any moment (ring full, client holding data, trigger wait, averaging, finished) return, leave workers finished, devices "
                 "stopped, runtime Armed, storage with a gap-free prefix, and the next acquisition complete",
@@ -57,7 +57,7 @@ TABLE = {
                      "AcqVerif.C09.no_frame_call_after_failed_frame_call", "AcqVerif.C09.failed_camera_is_stopped", "AcqVerif.C09.one_stop_per_start",
                      "AcqVerif.C09.not_running_once_workers_exited", "AcqVerif.C09.returned_means_clean",
                      "AcqVerif.C09.faulty_run_stores_a_prefix", "AcqVerif.C09.acquisition_after_a_failure_is_complete"],
-        "classes": ["stofault", "camfault", "avgfault", "trigfault", "twofail"],
+        "classes": ["stofault", "camfault", "avgfault", "trigfault", "twofail", "avgf32"],
         "kinds": ("append-after-failed", "get_frame-after-failed", "still-running-after", "state-", "never-returns", "stored-", "camera-delivered",
                   "device-", "CRASH"),
         "what": "after a scripted camera/storage failure at any call index nothing more reaches the device, the camera is stopped, stop/abort return, "
